@@ -1,6 +1,7 @@
-(* NumberPasses.v — C17, Document::parse layer: the passes before condense_number_suffixes neither remove
-   nor alter a Number token or the two-letter word that follows it (unless an apostrophe and a word follow:
-   condense_contractions), and never panic on the token lists the lexer produces. *)
+(* NumberPasses.v — C17, Document::parse layer.  The passes before condense_number_suffixes (spaces, newlines,
+   newlines_to_breaks) neither remove nor alter a Number token or the two-letter word that follows it; the
+   passes after it (contractions, dotted initialisms) neither remove nor alter the merged Number token; none
+   of them panics on the token lists the lexer produces. *)
 Require Import Base Overlap Suggestion Tables_number Number NumberArith ListLemmas SuggestionProofs NumberLex.
 From Coq Require Import List Arith NArith Bool Lia.
 Import ListNotations.
@@ -60,6 +61,20 @@ Proof.
   rewrite ri_keep by (intros r Hr; apply H2; apply Hq1; exact Hr). eexists; reflexivity.
 Qed.
 
+(* the shape  A ++ Nt :: B  survives remove_indices when Nt is not queued *)
+Lemma ri_shape1 {A} (L : list A) (n : A) (R : list A) (rm : list nat) :
+  (forall j, In j rm -> j <> length L) ->
+  exists L' R', remove_indices 0 rm (L ++ n :: R) = L' ++ n :: R'
+    /\ (forall P, Forall P L -> Forall P L') /\ (forall P, Forall P R -> Forall P R').
+Proof.
+  intros H.
+  destruct (ri_app L (n :: R) 0 rm) as [q1 [Hq1 E1]]. cbn [Nat.add] in E1.
+  rewrite E1.
+  rewrite (ri_keep n R (length L) q1) by (intros r Hr; apply (H r); apply Hq1; exact Hr).
+  exists (remove_indices 0 rm L), (remove_indices (S (length L)) q1 R).
+  split; [reflexivity|]. split; intros P; apply ri_forall.
+Qed.
+
 (* ------------------------------------------------------------------------------------------------ *)
 (* pointwise updates                                                                                  *)
 (* ------------------------------------------------------------------------------------------------ *)
@@ -106,6 +121,16 @@ Proof.
   destruct Hnn as [->|[Hc _]]; [|congruence]. destruct Hww as [->|[Hc _]]; [|congruence].
   exists A1, B1. split; [reflexivity|]. split; [symmetry; eapply F2_length; exact HA|]. split; assumption.
 Qed.
+Lemma upd_shape1 K K2 (A : list token) (n : token) (B toks' : list token) :
+  Forall2 (upd K K2) (A ++ n :: B) toks' -> K n = false ->
+  exists A1 B1, toks' = A1 ++ n :: B1 /\ length A1 = length A
+    /\ Forall2 (upd K K2) A A1 /\ Forall2 (upd K K2) B B1.
+Proof.
+  intros HF Hn. apply Forall2_app_inv_l in HF. destruct HF as (A1 & r1 & HA & Hr & ->).
+  inversion Hr as [|? n' ? B1 Hnn HB]; subst.
+  destruct Hnn as [->|[Hc _]]; [|congruence].
+  exists A1, B1. split; [reflexivity|]. split; [symmetry; eapply F2_length; exact HA|]. split; assumption.
+Qed.
 Lemma upd_forall K K2 (P : token -> Prop) (l l' : list token) :
   Forall2 (upd K K2) l l' -> (forall y, K2 y = true -> P y) -> Forall P l -> Forall P l'.
 Proof.
@@ -120,6 +145,9 @@ Qed.
 Definition at_ (P : token -> bool) (l : list token) (j : nat) : Prop :=
   exists t, nth_error l j = Some t /\ P t = true.
 
+Lemma at_mid (P : token -> bool) (A : list token) (n : token) (B : list token) :
+  at_ P (A ++ n :: B) (length A) -> P n = true.
+Proof. intros [t [Ht Hp]]. rewrite nth_error_mid in Ht. injection Ht as <-. exact Hp. Qed.
 Lemma at_mid_n (P : token -> bool) (A : list token) (n w : token) (B : list token) :
   at_ P (A ++ n :: w :: B) (length A) -> P n = true.
 Proof. intros [t [Ht Hp]]. rewrite nth_error_mid in Ht. injection Ht as <-. exact Hp. Qed.
@@ -207,30 +235,26 @@ Qed.
 
   (* the shape invariant carried through the passes *)
   Definition good_ctx (A B : list token) : Prop :=
-    nonum A /\ nonum B /\ wordwf A /\ wordwf B /\ hd_not_apostrophe B.
+    nonum A /\ nonum B /\ wordwf A /\ wordwf B.
 
   Lemma upd_good K (A A1 B B1 : list token) :
-    (forall y, K y = true -> is_number y = false /\ is_word y = false /\ is_apostrophe y = false) ->
+    (forall y, K y = true -> is_number y = false /\ is_word y = false) ->
     Forall2 (upd K K) A A1 -> Forall2 (upd K K) B B1 -> good_ctx A B -> good_ctx A1 B1.
   Proof.
-    intros HK HA HB (H1 & H2 & H3 & H4 & H5).
+    intros HK HA HB (H1 & H2 & H3 & H4).
     repeat split.
     - eapply upd_forall; [exact HA | | exact H1]. intros y Hy. apply HK. exact Hy.
     - eapply upd_forall; [exact HB | | exact H2]. intros y Hy. apply HK. exact Hy.
-    - eapply upd_forall; [exact HA | | exact H3]. intros y Hy Hw. destruct (HK y Hy) as (_ & E & _). congruence.
-    - eapply upd_forall; [exact HB | | exact H4]. intros y Hy Hw. destruct (HK y Hy) as (_ & E & _). congruence.
-    - destruct HB as [|x y B' B1' Hxy _]; [exact I|]. cbn [hd_not_apostrophe] in *.
-      destruct Hxy as [->|[_ Hy]]; [exact H5 | apply HK; exact Hy].
+    - eapply upd_forall; [exact HA | | exact H3]. intros y Hy Hw. destruct (HK y Hy) as (_ & E). congruence.
+    - eapply upd_forall; [exact HB | | exact H4]. intros y Hy Hw. destruct (HK y Hy) as (_ & E). congruence.
   Qed.
 
   Lemma good_ri (A A' B B' : list token) :
     (forall P, Forall P A -> Forall P A') -> (forall P, Forall P B -> Forall P B') ->
-    match B with b :: _ => exists R'', B' = b :: R'' | [] => B' = [] end ->
     good_ctx A B -> good_ctx A' B'.
   Proof.
-    intros HA HB Hhd (H1 & H2 & H3 & H4 & H5). repeat split.
+    intros HA HB (H1 & H2 & H3 & H4). repeat split.
     - apply HA; exact H1. - apply HB; exact H2. - apply HA; exact H3. - apply HB; exact H4.
-    - destruct B as [|b B0]; [subst B'; exact I|]. destruct Hhd as [R'' ->]. exact H5.
   Qed.
 
   Lemma condense_spaces_shape (A : list token) (n w : token) (B : list token) :
@@ -248,12 +272,9 @@ Qed.
       - apply at_mid_n in Hj1. congruence.
       - apply at_mid_w in Hj1. congruence. }
     exists A', B'. split; [rewrite HR; reflexivity|].
-    eapply good_ri; [exact HPA | exact HPB | | ].
-    - apply Hhd. intros j Hj. rewrite HlA. intros ->. specialize (Hrm _ Hj). destruct Hrm as [_ [[_ H1]|[_ H2]]].
-      + replace (S (S (length A)) - 1) with (S (length A)) in H1 by lia. apply at_mid_w in H1. congruence.
-      + replace (S (S (length A)) - 2) with (length A) in H2 by lia. apply at_mid_n in H2. congruence.
-    - eapply (upd_good is_space); [|exact HA | exact HB | exact Hg].
-      intros y Hy. split; [apply not_number_space | split; [apply not_word_space | apply not_apostrophe_space]]; exact Hy.
+    eapply good_ri; [exact HPA | exact HPB | ].
+    eapply (upd_good is_space); [|exact HA | exact HB | exact Hg].
+    intros y Hy. split; [apply not_number_space | apply not_word_space]; exact Hy.
   Qed.
 
   (* ============================================================================================== *)
@@ -338,11 +359,9 @@ Qed.
       - apply at_mid_n in Hj1. congruence.
       - apply at_mid_w in Hj1. congruence. }
     exists A', B'. split; [rewrite HR; reflexivity|].
-    eapply good_ri; [exact HPA | exact HPB | | ].
-    - apply Hhd. intros j Hj. rewrite HlA. intros ->. specialize (Hrm _ Hj). destruct Hrm as (_ & _ & H1).
-      replace (S (S (length A)) - 1) with (S (length A)) in H1 by lia. apply at_mid_w in H1. congruence.
-    - eapply (upd_good is_newline); [|exact HA | exact HB | exact Hg].
-      intros y Hy. split; [apply not_number_newline | split; [apply not_word_newline | apply not_apostrophe_newline]]; exact Hy.
+    eapply good_ri; [exact HPA | exact HPB | ].
+    eapply (upd_good is_newline); [|exact HA | exact HB | exact Hg].
+    intros y Hy. split; [apply not_number_newline | apply not_word_newline]; exact Hy.
   Qed.
 
   Definition brk (t : token) : token :=
@@ -362,7 +381,7 @@ Qed.
     is_newline n = false -> is_newline w = false -> good_ctx A B ->
     exists A' B', newlines_to_breaks (A ++ n :: w :: B) = A' ++ n :: w :: B' /\ good_ctx A' B'.
   Proof.
-    intros Hn Hw (H1 & H2 & H3 & H4 & H5).
+    intros Hn Hw (H1 & H2 & H3 & H4).
     exists (map brk A), (map brk B). split.
     - rewrite newlines_to_breaks_map, map_app. cbn [map]. rewrite (brk_id _ Hn), (brk_id _ Hw). reflexivity.
     - unfold good_ctx, nonum, wordwf in *. rewrite !Forall_map. repeat split.
@@ -370,7 +389,6 @@ Qed.
       + eapply Forall_impl; [|exact H2]. intros t Ht. rewrite brk_number. exact Ht.
       + eapply Forall_impl; [|exact H3]. intros t Ht Hwd. pose proof (brk_word _ Hwd) as Eb. rewrite Eb in *. apply Ht. exact Hwd.
       + eapply Forall_impl; [|exact H4]. intros t Ht Hwd. pose proof (brk_word _ Hwd) as Eb. rewrite Eb in *. apply Ht. exact Hwd.
-      + destruct B as [|b B0]; [exact I|]. cbn [map hd_not_apostrophe] in *. rewrite brk_apostrophe. exact H5.
   Qed.
 
   (* ============================================================================================== *)
@@ -438,21 +456,18 @@ Qed.
     replace (S (S (length A)) - (length A + 2)) with 0 by lia. reflexivity.
   Qed.
 
-  (* no contraction touches the number or its suffix word *)
-  Lemma cmatch_avoids (A : list token) (n w : token) (B : list token) (m : span) :
-    is_word n = false -> is_apostrophe n = false -> is_apostrophe w = false -> hd_not_apostrophe B ->
-    cmatch (A ++ n :: w :: B) m -> sstart m + 3 <= length A \/ length A + 2 <= sstart m.
+  (* no contraction touches the (merged) number token: it is neither a word nor an apostrophe *)
+  Lemma cmatch_avoids1 (A : list token) (n : token) (B : list token) (m : span) :
+    is_word n = false -> is_apostrophe n = false ->
+    cmatch (A ++ n :: B) m -> sstart m + 3 <= length A \/ length A + 1 <= sstart m.
   Proof.
-    intros Hnw Hna Hwa HB (a & b & c & _ & Ha & Hb & Hc & Wa & Ab & Wc).
+    intros Hnw Hna (a & b & c & _ & Ha & Hb & Hc & Wa & Ab & Wc).
     destruct (Nat.eq_dec (S (S (sstart m))) (length A)) as [E|E].
-    { rewrite E, nth_mid_n in Hc. injection Hc as <-. congruence. }
+    { rewrite E, nth_error_mid in Hc. injection Hc as <-. congruence. }
     destruct (Nat.eq_dec (S (sstart m)) (length A)) as [E1|E1].
-    { rewrite E1, nth_mid_n in Hb. injection Hb as <-. congruence. }
+    { rewrite E1, nth_error_mid in Hb. injection Hb as <-. congruence. }
     destruct (Nat.eq_dec (sstart m) (length A)) as [E2|E2].
-    { rewrite E2, nth_mid_n in Ha. injection Ha as <-. congruence. }
-    destruct (Nat.eq_dec (sstart m) (S (length A))) as [E3|E3].
-    { rewrite E3, nth_mid_b in Hb. destruct B as [|b0 B0]; [discriminate|]. cbn in Hb. injection Hb as <-.
-      cbn [hd_not_apostrophe] in HB. congruence. }
+    { rewrite E2, nth_error_mid in Ha. injection Ha as <-. congruence. }
     lia.
   Qed.
 
@@ -524,49 +539,33 @@ Qed.
           -- right. exists m'. split; [right; exact Hm' | exact Hr].
   Qed.
 
-  Definition good2 (A B : list token) : Prop := nonum A /\ nonum B /\ wordwf A /\ wordwf B.
-
   Lemma not_number_word t : is_word t = true -> is_number t = false.
   Proof. unfold is_word, is_number. destruct (tkind t); congruence. Qed.
 
-  Lemma condense_contractions_shape (A : list token) (n w : token) (B : list token) :
-    is_word n = false -> is_apostrophe n = false -> is_word w = true -> sstart (tspan w) <= send (tspan w) ->
-    good_ctx A B ->
-    exists A' B', condense_contractions (A ++ n :: w :: B) = Ok (A' ++ n :: w :: B') /\ good2 A' B'.
+  Lemma condense_contractions_shape1 (A : list token) (n : token) (B : list token) :
+    is_word n = false -> is_apostrophe n = false -> good_ctx A B ->
+    exists A' B', condense_contractions (A ++ n :: B) = Ok (A' ++ n :: B') /\ good_ctx A' B'.
   Proof.
-    intros Hnw Hna Hww Hwwf (H1 & H2 & H3 & H4 & H5). unfold condense_contractions.
-    set (toks := A ++ n :: w :: B).
-    assert (Hwa : is_apostrophe w = false) by (unfold is_word, is_apostrophe in *; destruct (tkind w); congruence).
+    intros Hnw Hna (H1 & H2 & H3 & H4). unfold condense_contractions.
+    set (toks := A ++ n :: B).
     assert (Hwf0 : wordwf toks).
-    { unfold wordwf, toks. apply Forall_app. split; [exact H3|]. constructor; [intros Hc; congruence|].
-      constructor; [intros _; exact Hwwf | exact H4]. }
+    { unfold wordwf, toks. apply Forall_app. split; [exact H3|]. constructor; [intros Hc; congruence | exact H4]. }
     destruct (cp_apply_spec (find_all_matches toks) toks toks []) as (toks' & rm & HE & HF & Hwf & Hoth & Hrm).
     { apply Forall2_refl_upd. } { exact Hwf0. } { intros m Hm. apply find_all_matches_spec. exact Hm. }
     rewrite HE. cbn [bind fst snd].
-    assert (Hav : forall m, In m (find_all_matches toks) -> sstart m + 3 <= length A \/ length A + 2 <= sstart m).
-    { intros m Hm. apply (cmatch_avoids A n w B m Hnw Hna Hwa H5). apply find_all_matches_spec. exact Hm. }
-    (* split the updated list; the word after the number is at an index no match starts at *)
-    apply Forall2_app_inv_l in HF. destruct HF as (A1 & r1 & HA & Hr & Et').
-    inversion Hr as [|? n' ? r2 Hnn Hr2]; subst r1. inversion Hr2 as [|? w' ? B1 Hww' HB]; subst r2.
-    assert (HlA : length A1 = length A) by (symmetry; eapply F2_length; exact HA).
-    assert (n' = n) as -> by (destruct Hnn as [->|[Hc _]]; [reflexivity | congruence]).
-    assert (w' = w) as ->.
-    { pose proof (Hoth (S (length A))) as Ho. rewrite Et' in Ho. rewrite <- HlA in Ho at 1. rewrite nth_mid_w in Ho.
-      unfold toks in Ho. rewrite nth_mid_w in Ho.
-      assert (Some w' = Some w) as Hs; [|injection Hs; auto].
-      apply Ho. intros m Hm. specialize (Hav m Hm). lia. }
-    subst toks'.
-    destruct (ri_shape A1 n w B1 rm) as (A' & B' & HR & HPA & HPB & _).
+    assert (Hav : forall m, In m (find_all_matches toks) -> sstart m + 3 <= length A \/ length A + 1 <= sstart m).
+    { intros m Hm. apply (cmatch_avoids1 A n B m Hnw Hna). apply find_all_matches_spec. exact Hm. }
+    destruct (upd_shape1 _ _ _ _ _ _ HF Hnw) as (A1 & B1 & -> & HlA & HA & HB).
+    destruct (ri_shape1 A1 n B1 rm) as (A' & B' & HR & HPA & HPB).
     { intros j Hj. rewrite HlA. destruct (Hrm j Hj) as [[]|[m [Hm Hr']]].
       specialize (Hav m Hm). destruct (find_all_matches_spec _ _ Hm) as (_ & _ & _ & Hend & _). lia. }
     exists A', B'. split; [rewrite HR; reflexivity|].
     unfold wordwf in Hwf. apply Forall_app in Hwf. destruct Hwf as [WA WB]. inversion WB as [|? ? _ WB1]; subst.
-    inversion WB1 as [|? ? _ WB2]; subst.
     repeat split.
     - apply HPA. eapply upd_forall; [exact HA | | exact H1]. intros y Hy. apply not_number_word. exact Hy.
     - apply HPB. eapply upd_forall; [exact HB | | exact H2]. intros y Hy. apply not_number_word. exact Hy.
     - apply HPA. exact WA.
-    - apply HPB. exact WB2.
+    - apply HPB. exact WB1.
   Qed.
 
   (* ============================================================================================== *)
@@ -681,26 +680,20 @@ Qed.
   Lemma not_number_w1 t : w1 t = true -> is_number t = false.
   Proof. unfold w1. intros H. apply andb_true_iff in H. apply not_number_word. tauto. Qed.
 
-  Lemma condense_initialisms_shape (A : list token) (n w : token) (B : list token) :
-    is_word n = false -> is_period n = false ->
-    is_word w = true -> send (tspan w) - sstart (tspan w) = 2 -> sstart (tspan w) <= send (tspan w) ->
-    good2 A B ->
-    exists A' B', condense_dotted_initialisms (A ++ n :: w :: B) = Ok (A' ++ n :: w :: B') /\ nonum A' /\ nonum B'.
+  Lemma condense_initialisms_shape1 (A : list token) (n : token) (B : list token) :
+    is_word n = false -> is_period n = false -> good_ctx A B ->
+    exists A' B', condense_dotted_initialisms (A ++ n :: B) = Ok (A' ++ n :: B') /\ nonum A' /\ nonum B'.
   Proof.
-    intros Hnw Hnp Hww Hwl Hwwf (H1 & H2 & H3 & H4). unfold condense_dotted_initialisms.
-    set (toks := A ++ n :: w :: B).
-    assert (Hlen : length toks = length A + 2 + length B) by (unfold toks; rewrite app_length; cbn [length]; lia).
-    destruct (length toks <? 2) eqn:E2; [apply Nat.ltb_lt in E2; lia|].
+    intros Hnw Hnp (H1 & H2 & H3 & H4). unfold condense_dotted_initialisms.
+    set (toks := A ++ n :: B).
+    destruct (length toks <? 2) eqn:E2; [exists A, B; auto|].
     assert (Hwf0 : wordwf toks).
-    { unfold wordwf, toks. apply Forall_app. split; [exact H3|]. constructor; [intros Hc; congruence|].
-      constructor; [intros _; exact Hwwf | exact H4]. }
+    { unfold wordwf, toks. apply Forall_app. split; [exact H3|]. constructor; [intros Hc; congruence | exact H4]. }
     destruct (di_loop_spec toks Hwf0 (S (length toks)) 1 toks [] None) as (toks1 & rm & st & HE & HF & Hst & Hrm).
     { lia. }
     { split; [apply Forall2_refl_upd|]. split; [intros i _; reflexivity|]. split; [lia|]. split; [exact I | intros j []]. }
     rewrite HE. cbn [bind].
     assert (Hn1 : w1 n = false) by (unfold w1; rewrite Hnw; reflexivity).
-    assert (Hw1 : w1 w = false) by (unfold w1; rewrite Hww, Hwl; reflexivity).
-    assert (Hwp : is_period w = false) by (unfold is_word, is_period in *; destruct (tkind w); congruence).
     (* the fix-up after the loop *)
     assert (Hfix : exists toks2 rm2,
               match st, last_error rm with
@@ -725,11 +718,9 @@ Qed.
         rewrite Hset. cbn [bind]. exists toks2, rm. auto. }
     destruct Hfix as (toks2 & rm2 & Hfx & HF2 & Hrm2).
     destruct st as [s|]; (destruct (last_error rm) as [l|]; rewrite Hfx; cbn [bind fst snd]);
-    (destruct (upd_shape _ _ _ _ _ _ _ HF2 Hn1 Hw1) as (A1 & B1 & -> & HlA & HA & HB);
-     destruct (ri_shape A1 n w B1 rm2) as (A' & B' & HR & HPA & HPB & _);
-     [ intros j Hj; rewrite HlA; destruct (Hrm2 j Hj) as [_ [Hp|Hp]]; split; intros ->;
-       [ apply at_mid_n in Hp; congruence | apply at_mid_w in Hp; congruence
-       | apply at_mid_n in Hp; congruence | apply at_mid_w in Hp; congruence ]
+    (destruct (upd_shape1 _ _ _ _ _ _ HF2 Hn1) as (A1 & B1 & -> & HlA & HA & HB);
+     destruct (ri_shape1 A1 n B1 rm2) as (A' & B' & HR & HPA & HPB);
+     [ intros j Hj; rewrite HlA; destruct (Hrm2 j Hj) as [_ [Hp|Hp]]; intros ->; apply at_mid in Hp; congruence
      | exists A', B'; split; [rewrite HR; reflexivity|]; split;
        [ apply HPA; eapply upd_forall; [exact HA | | exact H1]; intros y Hy; apply not_number_word; exact Hy
        | apply HPB; eapply upd_forall; [exact HB | | exact H2]; intros y Hy; apply not_number_word; exact Hy ] ]).
